@@ -172,7 +172,10 @@ def make_x(k, values, tag):
     if tag == "nd2":
         return np.array([row], dtype=float)
     if tag == "series":
-        return pd.Series(row, index=NAMES[: len(row)], dtype=float)
+        # only DataFrames establish names: a Series' index labels must not matter, so half of the Series (chosen by the value,
+        # not by the PRNG) carry labels that no DataFrame of the history uses (wave 10, V06-w10m2)
+        other = int(abs(float(row[0])) * 1e6) % 2 == 1
+        return pd.Series(row, index=(["u", "v", "w", "z"] if other else NAMES)[: len(row)], dtype=float)
     return pd.DataFrame([row], columns=NAMES[: len(row)], dtype=float)
 
 
